@@ -336,6 +336,25 @@ def check_c15(tier, seed, wd):
                 if rc != 0: ctx.fail('valid_concatenation_rejected', detail + ' ' + err.decode(errors='replace')[-120:].replace('\n', ' '), recargs)
                 elif written is not None and written != content: ctx.fail('concatenation_wrong_content', detail + ' got=%d want=%d' % (len(written), len(content)), recargs)
                 if bk == 'st' and how != 'test': ctx.rec.write(*recargs)    # the specification must agree that the stream is valid
+    # pinned: a legacy frame holding a FULL 8 MiB block of incompressible data (hand-made: one literal run; its compressed size 8421506 lies between the
+    # decoded block size and LZ4_COMPRESSBOUND(8 MiB), the range in which a block size must not be taken for the next frame's magic number), alone and next to other frames
+    big = rng.randbytes(8 << 20); tail = rng.randbytes(100)
+    L8 = handmade_legacy_frame([big, tail]); c8 = big + tail
+    small = {t[0]: t for t in pool}
+    combos = [([L8], c8, 'legacy-8MiB-incompressible')]
+    for t in ('lz4-default', 'skip-3-3', 'legacy-1block'):
+        if t in small:
+            combos.append(([small[t][2], L8], small[t][3] + c8, t + '+legacy-8MiB-incompressible'))
+            combos.append(([L8, small[t][2]], c8 + small[t][3], 'legacy-8MiB-incompressible+' + t))
+    for parts, content, tag in combos:
+        data = b''.join(parts)
+        for bk in ('st', 'mt'):
+            f6 = bk == 'mt' and tag.startswith('lz4-default+legacy')
+            for how in (['file', 'stdin', 'test'] if ctx.thorough else ['file', 'test'] if bk == 'st' else ['stdin']):
+                rc, written, err = decode_run(ctx, B[bk], data, how, wd); ctx.stat('decode_big_legacy_block')
+                detail = 'build=%s how=%s frames=%s rc=%d%s' % (bk, how, tag, rc, ' [F6-signature: MT build, legacy frame reached from inside the LZ4F decoding loop]' if f6 else '')
+                if rc != 0: ctx.fail('valid_concatenation_rejected', detail + ' ' + err.decode(errors='replace')[-120:].replace('\n', ' '))
+                elif written is not None and written != content: ctx.fail('concatenation_wrong_content', detail + ' got=%d want=%d' % (len(written), len(content)))
     return ctx.finish()
 
 # ------------------------------------------------------------------ C14
